@@ -71,7 +71,7 @@ def main(tier, seed):
         chk.violation('C02 static obligation failed: ' + o[0], o[0] + '\n' + o[2], False, 'static')
     chk.evaluations = total
     chk.distinct = total
-    chk.rule = ('every exported raid_gen* variant the CPU runs x nd in {1,2,3,4,5,8,31,32,33,64,128,250,251} (thorough: 1..251) x '
+    chk.rule = ('every exported raid_gen* variant the CPU runs x nd in {1,2,3,4,5,8,31,32,33,64,128,250,251} (thorough: 1..251, byte basis on every disk for nd <= 16 and on ~14 disks per nd above) x '
                 '{dense seeded data at sizes 64/128/192/4096, all-0xff, per-disk byte basis: every value 0..255 in every one of the 64 lanes, single-disk random}; '
                 'expected value = sum_i A[j][i]*D_i with field and matrix computed by the Lean definitions; data blocks and guard pages compared; '
                 'a case is distinct by (variant, nd, size, pattern, basis disk)')
